@@ -93,6 +93,24 @@ pub fn translate(repo: &Path, out: &mut Out) {
         "Definition unordered_loops : list (list N * list N) := [{}].",
         loops.iter().map(|(f, e)| format!("({}, {})", coq_bytes(f), coq_bytes(e))).collect::<Vec<_>>().join("; ")
     );
+    // toml::Table is a sorted map only as long as no crate of the workspace switches on the `preserve_order` feature of
+    // the toml crate (features unify across the build): every Cargo.toml is scanned for it
+    let mut preserve = false;
+    let mut manifests = vec![repo.join("Cargo.toml")];
+    if let Ok(rd) = std::fs::read_dir(repo) {
+        for e in rd.flatten() {
+            let m = e.path().join("Cargo.toml");
+            if m.is_file() {
+                manifests.push(m);
+            }
+        }
+    }
+    for m in manifests {
+        if std::fs::read_to_string(&m).is_ok_and(|t| t.contains("preserve_order")) {
+            preserve = true;
+        }
+    }
+    let _ = writeln!(v, "Definition toml_tables_sorted : bool := {}.", !preserve);
     out.coq("GenDeterminism.v").push_str(&v);
     out.json.insert("determinism".into(), serde_json::json!({"hash": hash_rows, "clock": clock_rows, "loops": loops}));
 }
